@@ -172,7 +172,7 @@ def degenerate(rng, name, data, mode):
 DEGEN_MODES = ['zero', 'repeat', 'rank1', 'big', 'small', 'mixedscale', 'fewframes']
 
 
-def case_model(rng, tier, i, degen=False, force_name=None, force_mode=None):
+def case_model(rng, tier, i, degen=False, force_name=None, force_mode=None, force_single=None):
     name = force_name or mm.MODELS[int(rng.integers(0, len(mm.MODELS)))]
     K = int(rng.integers(1, 5)) if name != 'cacgmm' else int(rng.integers(2, 5))
     D = int(rng.integers(2, 6))
@@ -188,27 +188,48 @@ def case_model(rng, tier, i, degen=False, force_name=None, force_mode=None):
         D = min(D, 4)
     data = mm.make_data(rng, name, K, D, N, lead, separation=float(rng.choice([0.5, 2.0, 8.0])))
     mode = None
+    fit_data = None
     if degen:
         mode = force_mode or str(rng.choice(DEGEN_MODES))
+        clean = data
         data = degenerate(rng, name, data, mode)
+        if mode in ('zero', 'repeat', 'rank1', 'mixedscale') and rng.random() < 0.5:
+            fit_data = clean      # a model fitted on one segment is applied to another one that contains the degenerate frames
     style = 'onehot' if (degen and rng.random() < 0.4 and N >= K) else ['positive', 'dirichlet'][int(rng.integers(0, 2))]
     init = mm.make_init(rng, K, N, lead, style)
     opts = mm.sample_options(rng, name, K, N, lead, with_aligner=(rng.random() < 0.2))
     iters = int(rng.integers(1, 4))
+    _MCOUNT[0] += 1
+    single = _MCOUNT[0] % 4 == 0 and (mode in (None, 'zero', 'repeat', 'rank1', 'fewframes'))
+    if force_single is not None:
+        single = force_single
+    if single:
+        # "single or double precision": observations AND the initial affiliation in single precision (only then does the
+        # fitted model itself carry single-precision parameters)
+        cast = lambda dd: {k: (v.astype(np.complex64) if np.iscomplexobj(v) else v.astype(np.float32)) if k != 'labels' else v
+                           for k, v in dd.items()}
+        data = cast(data)
+        fit_data = cast(fit_data) if fit_data is not None else None
+        init = init.astype(np.float32)
+    reassign = _MCOUNT[0] % 3 == 0
     use_num_classes = (not degen) and rng.random() < 0.1 and 'source_activity_mask' not in opts
     seed = int(rng.integers(0, 2 ** 31))
     rp = {'fn': 'model', 'model': name, 'data': {k: v for k, v in data.items() if k != 'labels'}, 'init': init,
           'opts': {k: v for k, v in opts.items() if k != 'inline_permutation_aligner'},
           'aligner': 'inline_permutation_aligner' in opts, 'iterations': iters,
-          'num_classes': K if use_num_classes else None, 'np_seed': seed, 'degenerate': mode}
-    label = 'predict %s K=%d D=%d N=%d lead=%s iters=%d init=%s degenerate=%s opts=%s' % (
-        name, K, D, N, lead, iters, 'num_classes' if use_num_classes else style, mode, mm.describe_options(opts))
+          'num_classes': K if use_num_classes else None, 'np_seed': seed, 'degenerate': mode, 'reassign': reassign}
+    if fit_data is not None:
+        rp['fit_data'] = {k: v for k, v in fit_data.items() if k != 'labels'}
+    label = 'predict %s K=%d D=%d N=%d lead=%s iters=%d init=%s%s%s degenerate=%s opts=%s' % (
+        name, K, D, N, lead, iters, 'num_classes' if use_num_classes else style, '/single' if single else '',
+        '/reassign' if reassign else '', (mode + '@predict-only') if fit_data is not None else mode, mm.describe_options(opts))
     fail, key, coq, raised, nt = eval_model(rp, rng)
     return Case(label, coq=coq, pred_fail=fail, key=key, nontrivial=nt,
                 digest_=core.digest(label, *[v for v in rp['data'].values()], init),
                 sample={'name': label}, replay=rp, raised=raised, kind=('degenerate/' if degen else 'model/') + name)
 
 
+_MCOUNT = [0]
 EXPLICIT = (AssertionError, ValueError, NotImplementedError, np.linalg.LinAlgError, FloatingPointError)
 
 
@@ -233,10 +254,13 @@ def eval_model(rp, rng=None):
     before = {k: v.tobytes() for k, v in data.items()}
     try:
         np.random.seed(rp['np_seed'])
+        fdata = data
+        if rp.get('fit_data') is not None:
+            fdata = {k: np.array(v) for k, v in rp['fit_data'].items()}
         if rp.get('num_classes'):
-            model, trace = mm.fit(name, data, None, num_classes=rp['num_classes'], iterations=rp['iterations'], **opts)
+            model, trace = mm.fit(name, fdata, None, num_classes=rp['num_classes'], iterations=rp['iterations'], **opts)
         else:
-            model, trace = mm.fit(name, data, init, iterations=rp['iterations'], **opts)
+            model, trace = mm.fit(name, fdata, init, iterations=rp['iterations'], **opts)
         pk = {}
         mask = opts.get('source_activity_mask')
         if name == 'cacgmm' and mask is not None:
@@ -280,11 +304,41 @@ def eval_model(rp, rng=None):
         return 'component log_pdf not finite', 'model:logpdf-nonfinite:%s' % tag, None, None, False
     m2 = mask if name == 'cacgmm' else None
     ref = mm.bayes(lp, w, m2)
-    if np.abs(aff - ref).max() > 1e-9:
+    single = any(v.dtype in (np.float32, np.complex64) for v in data.values())
+    btol = 2e-3 if single else 1e-9
+    rtol = RT32 if single else RT64
+    lp = np.asarray(lp, dtype=float)
+    if np.abs(aff - ref).max() > btol:
         return ('predict(%s) differs from Bayes rule on its own log_pdf and weights by %.3g' % (name, np.abs(aff - ref).max()),
-                'model:bayes:%s' % name, coq_cols(rng, lp, w, m2, aff, 0.0, mm.tiny_of(lp), RT64), None, False)
+                'model:bayes:%s' % name, coq_cols(rng, lp, w, m2, np.asarray(aff, float), 0.0, mm.tiny_of(lp), rtol), None, False)
+    if rp.get('reassign') and K >= 2:
+        # one model object used more than once: after new priors are stored, predict must be Bayes' rule for THOSE weights
+        # (tests/test_distribution/test_cacgmm.py relabels a fitted model this way)
+        try:
+            w_old = np.asarray(model.weight)
+            if name in mm.INTEGRATION:
+                from pb_bss.utils import unsqueeze
+                full = unsqueeze(w_old, model.weight_constant_axis)          # ones at the tied axes, class axis -2
+                fnew = rng.uniform(0.05, 1.0, size=full.shape)
+                fnew = fnew / fnew.sum(-2, keepdims=True)
+                w_new = np.squeeze(fnew, axis=model.weight_constant_axis)
+            else:
+                w_new = rng.uniform(0.05, 1.0, size=w_old.shape)
+                w_new = w_new / w_new.sum(axis=(-2 if w_old.ndim >= 2 else 0), keepdims=True)
+            model.weight = w_new.astype(w_old.dtype)
+            aff2 = mm.predict(name, model, data, **pk)
+            lp2, w2 = mm.components(name, model, data)
+            ref2 = mm.bayes(np.asarray(lp2, float), w2, m2)
+            if aff2.shape != aff.shape or not np.all(np.isfinite(aff2)) or np.abs(aff2 - ref2).max() > btol:
+                return ('second predict after storing new mixture weights in the model is not Bayes rule for the stored weights '
+                        '(max dev %.3g)' % (np.abs(aff2 - ref2).max() if aff2.shape == ref2.shape else float('nan'))), \
+                    'model:bayes-after-reassign:%s' % name, None, None, False
+        except Exception as e:
+            if not core.deliberate_exception(e):
+                return ('predict after storing new weights raised %s: %s' % (type(e).__name__, str(e)[:200]),
+                        'model:reassign-crash:%s' % name, None, None, False)
     nt = K >= 2 and float(np.ptp(w)) > 1e-6 and bool(((aff > 0.01) & (aff < 0.99)).any())
-    return None, None, coq_cols(rng, lp, w, m2, aff, 0.0, mm.tiny_of(lp), RT64), None, nt
+    return None, None, coq_cols(rng, lp, w, m2, np.asarray(aff, float), 0.0, mm.tiny_of(lp), rtol), None, nt
 
 
 # ----------------------------------------------------------------------------- D: initializers
@@ -391,6 +445,10 @@ def cases(rng, tier):
     # degenerate stream, stratified: every model meets every degeneracy in every run
     for i in range(49 if q else 490):
         out.append(case_model(rng, tier, i, degen=True, force_name=mm.MODELS[i % 7], force_mode=DEGEN_MODES[(i // 7) % 7]))
+    # single precision (observations and initial affiliation) meets silent / repeated frames in every model
+    for i in range(14 if q else 84):
+        out.append(case_model(rng, tier, i, degen=True, force_name=mm.MODELS[i % 7], force_mode=['zero', 'repeat'][(i // 7) % 2],
+                              force_single=True))
     for i in range(20 if q else 150):
         out.append(case_init(rng, tier, i))
     for i in range(1 if q else 4):
